@@ -30,7 +30,7 @@ ASSUMPTIONS = [
     "json / pickle / pydantic-core / repr are executed, not encoded: which values they accept is observed, not proved",
 ]
 TRUSTED = ["json, pickle, pydantic (executed)", "vt.sym explorer"]
-REQUIRED_COVERS = ["json", "json_dict", "pickle", "cycle", "self_loop", "suppressed_context", "stand_in", "exact_class", "unrepresentable_arg", "bad_unpickle_arg"]
+REQUIRED_COVERS = ["json", "json_dict", "pickle", "cycle", "self_loop", "suppressed_context", "stand_in", "exact_class", "unrepresentable_arg", "bad_unpickle_arg", "three_nodes", "late_import"]
 
 
 def bounds(tier: str) -> Dict[str, Any]:
@@ -113,7 +113,12 @@ def cases(tier: str) -> List[Any]:
                 out.append({"enc": enc, "cls0": ck, "args0": ak, "n": 1})
             out.append({"enc": enc, "cls0": ck, "args0": "str", "n": 2})
             if tier == "thorough":
-                out.append({"enc": enc, "cls0": ck, "args0": "str", "n": 3})
+                out.append({"enc": enc, "cls0": ck, "args0": "str", "n": 3, "plain_rest": True})
+        out.append({"enc": enc, "late": True, "n": 1, "cls0": "module", "args0": "str"})
+    # three nodes, every link combination (shared nodes reached over two paths, 2-cycles below the root), JSON
+    for enc in ("json", "json_dict"):
+        for root in itertools.product(range(4), range(4), range(2)):
+            out.append({"enc": enc, "cls0": "module", "args0": "str", "n": 3, "root": list(root), "plain_rest": True})
     return out
 
 
@@ -156,16 +161,23 @@ def harness(c: sym.Ctx, case: Dict[str, Any]) -> None:
 
     enc, n = case["enc"], case["n"]
     c.cover(enc)
-    kinds = [case["cls0"]] + [c.choose(("module", "local", "builtin"), f"cls{k}") for k in range(1, n)]
+    if case.get("late"):
+        return late_import(c, enc)
+    kinds = [case["cls0"]] + [("module" if case.get("plain_rest") else c.choose(("module", "local", "builtin"), f"cls{k}")) for k in range(1, n)]
     akinds = [case["args0"]] + ["str"] * (n - 1)
     nodes = [build_exc(kinds[k], build_args(akinds[k]) if k == 0 else (f"n{k}",)) for k in range(n)]
     links: List[Tuple[Optional[int], Optional[int], bool]] = []
     for k in range(n):
         opts = [None] + list(range(n))
-        cause = opts[c.choose(len(opts), f"cause{k}")]
-        context = opts[c.choose(len(opts), f"context{k}")]
-        suppress = c.flag(f"suppress{k}")
+        if k == 0 and "root" in case:
+            cause, context, suppress = opts[case["root"][0]], opts[case["root"][1]], bool(case["root"][2])
+        else:
+            cause = opts[c.choose(len(opts), f"cause{k}")]
+            context = opts[c.choose(len(opts), f"context{k}")]
+            suppress = c.flag(f"suppress{k}")
         links.append((cause, context, suppress))
+    if n == 3:
+        c.cover("three_nodes")
     for k, (cause, context, suppress) in enumerate(links):
         nodes[k].__cause__ = nodes[cause] if cause is not None else None
         nodes[k].__context__ = nodes[context] if context is not None else None
@@ -239,6 +251,64 @@ def harness(c: sym.Ctx, case: Dict[str, Any]) -> None:
                     compare(sub, target, new_path, where + "." + name)
 
     compare(err, 0, [], "error")
+
+
+def late_import(c: sym.Ctx, enc: str) -> None:
+    """A result stored by a worker that knows the exception's module is loaded first by a process that has not imported that
+    module (stand-in expected), then again after the module was imported: the second load must yield the real class."""
+    import sys
+    import types
+
+    from taskiq.result import TaskiqResult
+
+    c.cover("late_import")
+    name = "vt_c19_late_module"
+    mod = types.ModuleType(name)
+    exec("class LateExc(Exception):\n    pass\nclass Outer:\n    class Inner(Exception):\n        pass\n", mod.__dict__)  # noqa: S102
+    sys.modules[name] = mod
+    nested = c.flag("nested_class")
+    cls = mod.Outer.Inner if nested else mod.LateExc
+    exc = cls("late", 1)
+    exc.__cause__ = mod.LateExc("inner")
+    res = TaskiqResult(is_err=True, return_value=None, execution_time=0.1, error=exc, labels={})
+    try:
+        if enc == "pickle":
+            blob: Any = pickle.dumps(res)
+        elif enc == "json":
+            blob = res.model_dump_json()
+        else:
+            blob = res.model_dump()
+        order = c.choose(["absent_then_present", "present_only", "present_absent_present"], "order")
+        steps = {"absent_then_present": [False, True], "present_only": [True], "present_absent_present": [True, False, True]}[order]
+        for present in steps:
+            if present:
+                sys.modules[name] = mod
+            else:
+                sys.modules.pop(name, None)
+            if enc == "pickle" and not present:
+                continue  # unpickling imports the module by name; an absent module is not a stand-in case for pickle
+            try:
+                if enc == "pickle":
+                    loaded = pickle.loads(blob)
+                elif enc == "json":
+                    loaded = TaskiqResult.model_validate_json(blob)
+                else:
+                    loaded = TaskiqResult.model_validate(blob)
+            except BaseException as e:  # noqa: BLE001
+                c.check(False, "round_trip_never_fails", enc=enc, exc=repr(e)[:200], present=present, order=order)
+                return
+            err = loaded.error
+            if present:
+                c.check(type(err) is cls and list(err.args) == ["late", 1], "importable_class_with_representable_args_is_restored_exactly",
+                        got=type(err).__module__ + "." + type(err).__qualname__, order=order, enc=enc)
+                if enc != "pickle":
+                    c.check(type(err.__cause__) is mod.LateExc, "importable_class_with_representable_args_is_restored_exactly", where="cause",
+                            got=type(err.__cause__).__name__, order=order)
+            else:
+                c.check(isinstance(err, Exception) and type(err).__name__ in (cls.__name__, cls.__qualname__), "stand_in_is_named_base_or_wrapper",
+                        got=srepr(err), order=order)
+    finally:
+        sys.modules.pop(name, None)
 
 
 def budget(tier: str) -> Dict[str, Any]:
